@@ -202,6 +202,27 @@ class SymArr:
             return list(itertools.product(*ranges))
         return [tuple(reversed(t)) for t in itertools.product(*reversed(ranges))]
 
+    def __bool__(self):
+        """numpy: only an array with exactly one element has a truth value"""
+        if self.size != 1:
+            if self.size == 0:
+                return False
+            raise ValueError("The truth value of an array with more than one element is ambiguous. Use a.any() or a.all()")
+        v = self.flat[0] if not hasattr(self, "_layout") else list(self.flat)[0]
+        if isinstance(v, bool):
+            return v
+        return _const(v, "the truth value") != 0
+
+    def any(self, axis=None):
+        if axis is not None:
+            raise A.Undecided("any along an axis")
+        return any((v if isinstance(v, bool) else _const(v, "the truth value") != 0) for v in self.flat)
+
+    def all(self, axis=None):
+        if axis is not None:
+            raise A.Undecided("all along an axis")
+        return all((v if isinstance(v, bool) else _const(v, "the truth value") != 0) for v in self.flat)
+
     def __len__(self):
         if not self.shape:
             raise A.Undecided("len of a 0-d array")
@@ -515,22 +536,55 @@ class SymArr:
             for x in self.flat:
                 t = t + x
             return t
+        if isinstance(axis, bool) or not isinstance(axis, int) or not -self.ndim <= axis < self.ndim:
+            raise ValueError("axis %r is out of bounds for array of dimension %d" % (axis, self.ndim))
         axis = axis % self.ndim
         shape = tuple(s for k, s in enumerate(self.shape) if k != axis)
-        out = SymArr.zeros(shape) if shape else None
+        if not shape:
+            return self.sum()
+        acc = {}
         for idx in itertools.product(*[range(s) for s in self.shape]):
             j = tuple(v for k, v in enumerate(idx) if k != axis)
-            if shape:
-                st = out._strides()
-                p = sum(i * s for i, s in zip(j, st))
-                out.flat[p] = out.flat[p] + self.at(idx)
-        return out
+            acc[j] = acc.get(j, A.Rat.const(0)) + self.at(idx)
+        return SymArr(shape, [acc.get(j, A.Rat.const(0)) for j in itertools.product(*[range(s) for s in shape])])
+
+    def compare(self, o, opname):
+        """element-wise ==, !=, <, <=, >, >= with numpy's broadcasting -> boolean array.  Entries that are numbers are compared as
+        numbers; two structurally identical expressions are equal; anything else about a symbolic entry is not decided"""
+        import operator as _op
+        fn = {"Eq": _op.eq, "NotEq": _op.ne, "Lt": _op.lt, "LtE": _op.le, "Gt": _op.gt, "GtE": _op.ge}[opname]
+
+        def one(x, y):
+            if isinstance(x, bool) or isinstance(y, bool):
+                return fn(x, y) if isinstance(x, bool) and isinstance(y, bool) else fn(float(x) if isinstance(x, bool) else _const(x, "a comparison"), float(y) if isinstance(y, bool) else _const(y, "a comparison"))
+            xr, yr = A.lift(x), A.lift(y)
+            if opname in ("Eq", "NotEq") and xr == yr:
+                return opname == "Eq"
+            return fn(_const(xr, "a comparison"), _const(yr, "a comparison"))
+        if isinstance(o, (list, tuple)):
+            o = SymArr.of(o)
+        if isinstance(o, SymArr):
+            shape = _bshape(self.shape, o.shape)
+            a, b = _broadcast_to(self, shape), _broadcast_to(o, shape)
+            return SymArr(shape, [one(x, y) for x, y in zip(a.flat, b.flat)], boolean=True)
+        return SymArr(self.shape, [one(x, o) for x in self.flat], boolean=True)
 
     def same(self, o):
         return isinstance(o, SymArr) and self.shape == o.shape and all(x == y for x, y in zip(self.flat, o.flat))
 
     def __repr__(self):
         return "SymArr%s%s" % (self.shape, self.flat if self.size <= 6 else "[...]")
+
+
+def _const(v, what):
+    """the numeric value of an entry, or Undecided: order / membership / magnitude of a symbolic entry is not defined"""
+    if isinstance(v, bool):
+        return v
+    r = A.lift(v)
+    c = r.const_value()
+    if c is None:
+        raise A.Undecided("%s of a symbolic value" % what)
+    return c
 
 
 def _as_int(v, n):
@@ -837,9 +891,45 @@ def np_summaries():
             return flat[0]
         return SymArr(tuple(size[c] for c in out), flat)
 
-    def sort(a):
-        vals = sorted(_as_int(v, 10 ** 9) for v in SymArr.of(a).flat)
-        return SymArr((len(vals),), vals)
+    def sort(a, axis=-1, kind=None, order=None):
+        a = SymArr.of(a)
+        if kind is not None or order is not None:
+            raise A.Undecided("np.sort with kind / order")
+        if a.ndim == 1:
+            return SymArr(a.shape, sorted(a.flat, key=lambda v: _const(v, "the order")))
+        if a.ndim == 2 and axis in (-1, 1):
+            return SymArr(a.shape, [x for i in range(a.shape[0]) for x in sorted([a.at((i, j)) for j in range(a.shape[1])], key=lambda v: _const(v, "the order"))])
+        raise A.Undecided("np.sort of a %d-d array along axis %r" % (a.ndim, axis))
+
+    def absval(x):
+        c = _const(x, "the absolute value")
+        return A.lift(x) if c >= 0 else -A.lift(x)
+
+    def isin(a, b):
+        pool = [_const(y, "membership") for y in (SymArr.of(b).flat if isinstance(b, (SymArr, list, tuple, range)) else [b])]
+        if not isinstance(a, (SymArr, list, tuple, range)):
+            return _const(a, "membership") in pool
+        a = SymArr.of(a)
+        return SymArr(a.shape, [_const(x, "membership") in pool for x in a.flat], boolean=True)
+
+    def stack(seq, axis=0):
+        arrs = [SymArr.of(x) for x in seq]
+        if not arrs:
+            raise ValueError("need at least one array to stack")
+        if len({tuple(x.shape) for x in arrs}) != 1:
+            raise ValueError("all input arrays must have the same shape")
+        sh = tuple(arrs[0].shape)
+        nd = len(sh) + 1
+        if not isinstance(axis, int) or not -nd <= axis < nd:
+            raise ValueError("axis %r is out of bounds for array of dimension %d" % (axis, nd))
+        axis %= nd
+        shape = sh[:axis] + (len(arrs),) + sh[axis:]
+        flat = []
+        for idx in itertools.product(*[range(n_) for n_ in shape]):
+            k = idx[axis]
+            src = idx[:axis] + idx[axis + 1:]
+            flat.append(arrs[k].at(src) if src else arrs[k].flat[0])
+        return SymArr(shape, flat)
     def repeat(a, n, axis=None):
         a = SymArr.of(a)
         if axis is None:
@@ -902,14 +992,13 @@ def np_summaries():
             return fn(A.lift(a))
         return g
     d0 = {"np.log": elementwise(A.log), "np.exp": elementwise(A.exp), "np.sqrt": elementwise(A.sqrt), "gammaln": elementwise(A.lgamma),
-          "scipy.special.gammaln": elementwise(A.lgamma), "np.abs": elementwise(lambda x: x)}
+          "scipy.special.gammaln": elementwise(A.lgamma), "np.abs": elementwise(absval), "np.absolute": elementwise(absval)}
     d = {
         "np.repeat": repeat, "np.tile": tile, "np.concatenate": concatenate, "np.hstack": lambda seq: concatenate(seq, 1),
-        "np.vstack": lambda seq: bmat([[_as2d(x)] for x in seq]), "np.stack": lambda seq, axis=0: SymArr.of([SymArr.of(x).tolist() for x in seq]),
+        "np.vstack": lambda seq: bmat([[_as2d(x)] for x in seq]), "np.stack": stack,
         "np.empty_like": empty_like, "np.zeros_like": empty_like, "np.empty": lambda s_, *a, **k: SymArr.zeros(s_),
         "np.ones_like": lambda a, dtype=None, **k: _ones_like(a, dtype), "np.diag": diag, "np.outer": outer,
-        "np.isin": lambda a, b: [(_as_int(x, 10 ** 9) if not isinstance(x, int) else x) in [(_as_int(y, 10 ** 9) if not isinstance(y, int) else y) for y in (b.flat if isinstance(b, SymArr) else (list(b) if isinstance(b, (list, tuple, range)) else [b]))]
-                                 for x in (a.flat if isinstance(a, SymArr) else list(a))],
+        "np.isin": isin,
         "np.multiply": lambda a, b: SymArr.of(a) * b, "np.size": lambda a, *x: SymArr.of(a).size, "np.shape": lambda a: SymArr.of(a).shape,
         "np.squeeze": lambda a: SymArr(tuple(x for x in SymArr.of(a).shape if x != 1), SymArr.of(a).flat),
         "np.take": _sym_take, "np.ndindex": _sym_ndindex,
